@@ -116,7 +116,27 @@ def container_violation(root):
     return None
 
 
+class _NotTerminated(BaseException):
+    """raised by the watchdog timer inside a pass / the parser (BaseException: not swallowed by `except Exception`)"""
+
+
+def _watchdog(signum, frame):
+    raise _NotTerminated()
+
+
 def one_input(args):
+    """watchdog wrapper: a repeating interval timer (a one-shot alarm can be swallowed once and the process then spins)"""
+    import signal
+    old = signal.signal(signal.SIGALRM, _watchdog)
+    signal.setitimer(signal.ITIMER_REAL, 30.0, 2.0)
+    try:
+        return _one_input(args)
+    finally:
+        signal.setitimer(signal.ITIMER_REAL, 0)
+        signal.signal(signal.SIGALRM, old)
+
+
+def _one_input(args):
     """parse one text, build the advanced tree, run every pass directly in order; evaluate
     the run-time contracts of C01 (parse total), C05 (WF after build and after each pass,
     container typing at the end) and C06 (each pass returns, no ERROR report, cpu bound)."""
@@ -133,6 +153,9 @@ def one_input(args):
     try:
         with contextlib.redirect_stdout(buf), contextlib.redirect_stderr(buf):
             tree = parse(text, lang)
+    except _NotTerminated:
+        out["c01"] = "parse_string did not return within 30 s"
+        return out
     except BaseException as e:  # noqa: BLE001
         out["c01"] = f"parse_string raised {type(e).__name__}: {e}"[:300]
         return out
@@ -156,6 +179,10 @@ def one_input(args):
         try:
             with contextlib.redirect_stdout(buf), contextlib.redirect_stderr(buf):
                 getattr(tc, name)(tree)
+        except _NotTerminated:
+            out["c06"] = f"pass {name} did not terminate within 30 s"
+            out["c06_class"] = f"{name}:not-terminated"
+            return out
         except BaseException as e:  # noqa: BLE001
             out["c06"] = f"pass {name} raised {type(e).__name__}: {e}"[:300]
             out["c06_class"] = f"{name}:{type(e).__name__}"
